@@ -79,6 +79,8 @@ func (c *Cfg) name() string {
 	}
 	if c.Budget > 0 && len(c.Faults) == 1 {
 		at += "/only-" + c.Faults[0]
+	} else if c.Budget > 0 && len(c.Faults) > 1 && len(c.Faults) < 5 {
+		at += "/faults=" + strings.Join(c.Faults, "+")
 	}
 	return fmt.Sprintf("%s/%dn[%s]/att%d/b%d%s", c.Transport, len(c.Scripts), strings.Join(s, "|"), c.MaxAttempts, c.Budget, at)
 }
@@ -289,6 +291,7 @@ type mkey struct {
 
 // mrec is what happened to one request so far (oracle diagnosis: why is a replica still locked?).
 type mrec struct {
+	version   int   // the request's Version field
 	sent      int   // times the sender handed it to the transport
 	lost      int   // times the sender got an error for it (lost request, lost reply, time-out)
 	processed []int // event numbers at which the receiver processed it
@@ -335,8 +338,8 @@ type world struct {
 	nextID   int
 	sleepers []sleeper
 
-	hist      map[mkey]*mrec
-	seq       int // number of requests processed so far
+	hist map[mkey]*mrec
+	seq  int // number of requests processed so far
 
 	installed map[int]string
 	winners   map[int]winner
@@ -348,7 +351,7 @@ type world struct {
 }
 
 type counters struct {
-	steps, depthCapped, teardownStuck, staleAcceptDecided, probeRuns, probeNodeFailed, statesExpanded atomic.Int64
+	steps, depthCapped, teardownStuck, probeRuns, probeNodeFailed, statesExpanded atomic.Int64
 }
 
 // progressCtr is bumped at every scheduler step of any execution (process-level watchdog).
@@ -637,7 +640,7 @@ func (w *world) rec(from, to int, req *resources.TwoPCRequest) *mrec {
 	k := mkey{from, to, req.RequestType, req.SenderTime}
 	r := w.hist[k]
 	if r == nil {
-		r = &mrec{}
+		r = &mrec{version: req.Version}
 		w.hist[k] = r
 	}
 	return r
@@ -1122,8 +1125,9 @@ func (w *world) final() {
 // pcTime, as seen from replica r: did its section commit, were its Commit / Aborts handed to the transport
 // for r, reported lost to s, processed by r before / after event `since`.
 type relInfo struct {
-	known, committed, anyAbort     bool
+	known, committed, anyAbort        bool
 	sent, lost, procBefore, procAfter int
+	reqVersion                        int // Version field of the (last) Commit / Abort request considered
 }
 
 func (w *world) relInfoOf(s int, pcTime int64, r int, since int) relInfo {
@@ -1144,6 +1148,7 @@ func (w *world) relInfoOf(s int, pcTime int64, r int, since int) relInfo {
 		}
 		ri.sent += m.sent
 		ri.lost += m.lost
+		ri.reqVersion = m.version
 		for _, e := range m.processed {
 			if e > since {
 				ri.procAfter++
@@ -1174,6 +1179,9 @@ func (w *world) whyLocked(i int, d *resources.VerifTwoPCDump) (cause, why string
 	since := w.nodes[i].acceptedAt[accKey{s, d.Accepted.SenderTime}]
 	ri := w.relInfoOf(s, d.Accepted.SenderTime, i, since)
 	ignored := w.nodes[i].abortIgnored[d.Accepted.SenderTime]
+	// broadcastAbortOrCommit stops re-sending once the sender's version is no longer the one the request was
+	// built for (request Version = that version + 1)
+	movedOn := w.dump(s).Version >= ri.reqVersion
 	switch {
 	case !ri.known:
 		return "still-accepted", "the harness has no record of that proposal"
@@ -1181,6 +1189,8 @@ func (w *world) whyLocked(i int, d *resources.VerifTwoPCDump) (cause, why string
 		return "commit-never-sent", fmt.Sprintf("n%d committed that proposal but never handed the Commit for n%d to the transport", s, i)
 	case ri.committed && ri.procAfter > 0:
 		return "still-accepted", fmt.Sprintf("n%d committed that proposal and n%d processed the Commit, yet it still holds the pre-commit", s, i)
+	case ri.committed && ri.lost > 0 && !movedOn:
+		return "lost-commit-never-retried", fmt.Sprintf("n%d committed that proposal; its Commit to n%d was reported lost %d time(s) (sent %d time(s)) and was not sent again although n%d is still at the version it committed from", s, i, ri.lost, ri.sent, s)
 	case ri.committed && ri.lost > 0:
 		return "lost-commit-not-resent", fmt.Sprintf("n%d committed that proposal; its Commit to n%d was reported lost %d time(s) (sent %d time(s)) and was not sent again after n%d's own version had moved on: n%d never installs the decided version and stays locked", s, i, ri.lost, ri.sent, s, i)
 	case ri.committed:
@@ -1193,6 +1203,8 @@ func (w *world) whyLocked(i int, d *resources.VerifTwoPCDump) (cause, why string
 		return "no-abort-after-accept", fmt.Sprintf("that proposal was aborted; n%d processed n%d's Abort before it accepted the (late) pre-commit, and nothing releases it afterwards", i, s)
 	case ri.sent == 0:
 		return "abort-never-sent", fmt.Sprintf("that proposal was aborted but n%d never handed the Abort for n%d to the transport", s, i)
+	case ri.lost > 0 && !movedOn:
+		return "lost-abort-never-retried", fmt.Sprintf("that proposal was aborted; n%d's Abort to n%d was reported lost %d time(s) (sent %d time(s)) and was not sent again although n%d's version has not moved (the retry loop gave up)", s, i, ri.lost, ri.sent, s)
 	case ri.lost > 0:
 		return "lost-abort-not-resent", fmt.Sprintf("that proposal was aborted; n%d's Abort to n%d was reported lost %d time(s) (sent %d time(s)) and was not sent again after n%d's own version had moved on: the aborted proposal is never released", s, i, ri.lost, ri.sent, s)
 	}
@@ -1279,6 +1291,7 @@ func (w *world) kVal(v tla.Value) {
 		w.kb = append(w.kb, v.String()...)
 	}
 }
+
 // kRel: the oracle's diagnosis inputs, by what they can still change in a verdict (zero / non-zero)
 func (w *world) kRel(ri relInfo) {
 	w.kBool(ri.committed)
